@@ -21,7 +21,6 @@ structure Num (sc : Sc) (cl : Clip) (B G : Int) : Prop where
   ys : minScore ≤ cl.ys ∧ cl.ys ≤ 0
   G0 : 0 ≤ G
   room : G + B ≤ 2147483648 + minScore
-  three : 3 * B ≤ 2147483648 + minScore
 
 structure Idx (sc : Sc) (B G : Int) (k : Nat) : Prop where
   BG : B ≤ G
@@ -51,9 +50,10 @@ theorem upd_bounds {lo hi cand cur : Int} (h1 : lo ≤ cur) (h2 : cur ≤ hi) (h
 theorem stepJC_eq (N : Num sc cl B G) {i j : Nat} (Ii : Idx sc B G i) (Ij : Idx sc B G j) (prev : List Row) (r : Row)
     {u : Int} (hu0 : 0 ≤ u) (huG : u + B ≤ G)
     (hr : RB B u r) (hp1 : RB B u (prev.getD (i - 1) default)) (hp : RB B (u + B) (prev.getD i default))
-    (hw : -B ≤ sc.w (x.getD (i - 1) 0) (y.getD (j - 1) 0) ∧ sc.w (x.getD (i - 1) 0) (y.getD (j - 1) 0) ≤ B) :
+    (hw : -B ≤ sc.w (x.getD (i - 1) 0) (y.getD (j - 1) 0) ∧ sc.w (x.getD (i - 1) 0) (y.getD (j - 1) 0) ≤ B)
+    (h3 : 3 * B ≤ 2147483648 + minScore ∨ (r.i = minScore ∧ (prev.getD i default).d = minScore)) :
     stepJC sc cl x y j prev (cl.xp + max cl.yp (sc.go + sc.ge * (j : Int))) i r = some (stepJ sc cl x y j prev i r) := by
-  obtain ⟨hB1, hgo, hge, hxp, hxs, hyp, hys, hG0, hroom, hthree⟩ := N
+  obtain ⟨hB1, hgo, hge, hxp, hxs, hyp, hys, hG0, hroom⟩ := N
   obtain ⟨hBG, hilo, hihi, hicast⟩ := Ii
   obtain ⟨_, hjlo, hjhi, _⟩ := Ij
   obtain ⟨hrs, hri, hrd, hrsn, hrxm⟩ := hr
@@ -118,7 +118,7 @@ def edgeT (sc : Sc) (c : Int) (g cc : Tb) (k : Nat) : Tb :=
 
 theorem edgeC_eq (N : Num sc cl B G) {k : Nat} (I : Idx sc B G k) {c : Int} (hc : minScore ≤ c ∧ c ≤ 0) (g cc : Tb) :
     edgeC sc c g cc k = some (edgeV sc c k, edgeT sc c g cc k) := by
-  obtain ⟨hB1, hgo, hge, hxp, hxs, hyp, hys, hG0, hroom, hthree⟩ := N
+  obtain ⟨hB1, hgo, hge, hxp, hxs, hyp, hys, hG0, hroom⟩ := N
   obtain ⟨hBG, hilo, hihi, hicast⟩ := I
   have hms := minScore_i32
   have R : ∀ {a b : Int}, -2147483648 ≤ a + b → a + b ≤ 2147483647 → add a b = some (a + b) :=
@@ -136,7 +136,7 @@ theorem edgeC_eq (N : Num sc cl B G) {k : Nat} (I : Idx sc B G k) {c : Int} (hc 
 
 theorem edgeV_bounds (N : Num sc cl B G) {k : Nat} (I : Idx sc B G k) {c : Int} (hc : minScore ≤ c ∧ c ≤ 0) :
     minScore - 2 * B ≤ edgeV sc c k ∧ edgeV sc c k ≤ 0 := by
-  obtain ⟨hB1, hgo, hge, hxp, hxs, hyp, hys, hG0, hroom, hthree⟩ := N
+  obtain ⟨hB1, hgo, hge, hxp, hxs, hyp, hys, hG0, hroom⟩ := N
   obtain ⟨hBG, hilo, hihi, hicast⟩ := I
   have hms := minScore_i32
   unfold edgeV
@@ -148,7 +148,7 @@ theorem step0C_eq (N : Num sc cl B G) {i : Nat} (Ii : Idx sc B G i) (r : Row) {u
     (hr : RB B u r) : step0C sc cl x y i r = some (step0 sc cl x y i r) := by
   have he := edgeC_eq N Ii N.xp .ins .xpre
   have hev := edgeV_bounds N Ii N.xp
-  obtain ⟨hB1, hgo, hge, hxp, hxs, hyp, hys, hG0, hroom, hthree⟩ := N
+  obtain ⟨hB1, hgo, hge, hxp, hxs, hyp, hys, hG0, hroom⟩ := N
   obtain ⟨hBG, hilo, hihi, hicast⟩ := Ii
   obtain ⟨hrs, hri, hrd, hrsn, hrxm⟩ := hr
   have hms := minScore_i32
@@ -179,7 +179,7 @@ theorem rowJ0C_eq (N : Num sc cl B G) {j : Nat} (Ij : Idx sc B G j) (p0 : Row) (
     rowJ0C sc cl x y j p0 = some (rowJ0 sc cl x y j p0) := by
   have he := edgeC_eq N Ij N.yp .del .ypre
   have hev := edgeV_bounds N Ij N.yp
-  obtain ⟨hB1, hgo, hge, hxp, hxs, hyp, hys, hG0, hroom, hthree⟩ := N
+  obtain ⟨hB1, hgo, hge, hxp, hxs, hyp, hys, hG0, hroom⟩ := N
   obtain ⟨hps, hpi, hpd, hpsn, hpxm⟩ := hp
   have hms := minScore_i32
   have R : ∀ {a b : Int}, -2147483648 ≤ a + b → a + b ≤ 2147483647 → add a b = some (a + b) :=
@@ -201,7 +201,7 @@ theorem rowJ0C_eq (N : Num sc cl B G) {j : Nat} (Ij : Idx sc B G j) (p0 : Row) (
 
 theorem xclipC_eq (N : Num sc cl B G) {j : Nat} (Ij : Idx sc B G j) :
     xclipC sc cl j = some (cl.xp + max cl.yp (sc.go + sc.ge * (j : Int))) := by
-  obtain ⟨hB1, hgo, hge, hxp, hxs, hyp, hys, hG0, hroom, hthree⟩ := N
+  obtain ⟨hB1, hgo, hge, hxp, hxs, hyp, hys, hG0, hroom⟩ := N
   obtain ⟨hBG, hilo, hihi, hicast⟩ := Ij
   have hms := minScore_i32
   have R : ∀ {a b : Int}, -2147483648 ≤ a + b → a + b ≤ 2147483647 → add a b = some (a + b) :=
@@ -219,7 +219,7 @@ theorem RB.mono {r : Row} {u u' : Int} (h : RB B u r) (hu : u ≤ u') : RB B u' 
   exact ⟨⟨h1.1, by omega⟩, ⟨h2.1, by omega⟩, ⟨h3.1, by omega⟩, ⟨h4.1, by omega⟩, ⟨h5.1, by omega⟩⟩
 
 theorem row00_RB (N : Num sc cl B G) : RB B 0 (row00 cl x y) := by
-  obtain ⟨hB1, hgo, hge, hxp, hxs, hyp, hys, hG0, hroom, hthree⟩ := N
+  obtain ⟨hB1, hgo, hge, hxp, hxs, hyp, hys, hG0, hroom⟩ := N
   have hms := minScore_i32
   refine ⟨?_, ?_, ?_, ?_, ?_⟩ <;> simp only [row00]
   · omega
@@ -241,7 +241,7 @@ theorem dv0_eq_edgeV (j : Nat) : dv0 sc cl j = edgeV sc cl.yp j := by
 theorem step0_RB (N : Num sc cl B G) {i : Nat} (Ii : Idx sc B G i) (r : Row) {u : Int} (hu0 : 0 ≤ u)
     (hr : RB B u r) : RB B u (step0 sc cl x y i r) := by
   have hev := edgeV_bounds N Ii N.xp
-  obtain ⟨hB1, hgo, hge, hxp, hxs, hyp, hys, hG0, hroom, hthree⟩ := N
+  obtain ⟨hB1, hgo, hge, hxp, hxs, hyp, hys, hG0, hroom⟩ := N
   obtain ⟨hrs, hri, hrd, hrsn, hrxm⟩ := hr
   have hms := minScore_i32
   rw [step0_eq, iv0_eq_edgeV]
@@ -259,7 +259,7 @@ theorem step0_RB (N : Num sc cl B G) {i : Nat} (Ii : Idx sc B G i) (r : Row) {u 
 theorem rowJ0_RB (N : Num sc cl B G) {j : Nat} (Ij : Idx sc B G j) (p0 : Row) (hp : RB B 0 p0) :
     RB B 0 (rowJ0 sc cl x y j p0) := by
   have hev := edgeV_bounds N Ij N.yp
-  obtain ⟨hB1, hgo, hge, hxp, hxs, hyp, hys, hG0, hroom, hthree⟩ := N
+  obtain ⟨hB1, hgo, hge, hxp, hxs, hyp, hys, hG0, hroom⟩ := N
   obtain ⟨hps, hpi, hpd, hpsn, hpxm⟩ := hp
   have hms := minScore_i32
   rw [rowJ0_eq, dv0_eq_edgeV]
@@ -278,7 +278,7 @@ theorem stepJ_RB (N : Num sc cl B G) {i j : Nat} (Ii : Idx sc B G i) (Ij : Idx s
     (hr : RB B u r) (hp1 : RB B u (prev.getD (i - 1) default)) (hp : RB B (u + B) (prev.getD i default))
     (hw : sc.w (x.getD (i - 1) 0) (y.getD (j - 1) 0) ≤ B) :
     RB B (u + B) (stepJ sc cl x y j prev i r) := by
-  obtain ⟨hB1, hgo, hge, hxp, hxs, hyp, hys, hG0, hroom, hthree⟩ := N
+  obtain ⟨hB1, hgo, hge, hxp, hxs, hyp, hys, hG0, hroom⟩ := N
   obtain ⟨hBG, hilo, hihi, hicast⟩ := Ii
   obtain ⟨_, hjlo, hjhi, _⟩ := Ij
   obtain ⟨hrs, hri, hrd, hrsn, hrxm⟩ := hr
@@ -324,7 +324,7 @@ structure PB (U : Int) (p : PSt) : Prop where
 theorem post1StepC_eq (N : Num sc cl B G) (col : List Row) (i : Nat) (p : PSt) {U : Int} (hU : U ≤ G)
     (hp : minScore ≤ p.xm ∧ p.xm ≤ U) (hr : RB B U (col.getD i default)) :
     post1StepC cl x col i p = some (post1Step cl x col i p) ∧ PB U (post1Step cl x col i p) := by
-  obtain ⟨hB1, hgo, hge, hxp, hxs, hyp, hys, hG0, hroom, hthree⟩ := N
+  obtain ⟨hB1, hgo, hge, hxp, hxs, hyp, hys, hG0, hroom⟩ := N
   obtain ⟨hrs, hri, hrd, hrsn, hrxm⟩ := hr
   have hms := minScore_i32
   have R : ∀ {a b : Int}, -2147483648 ≤ a + b → a + b ≤ 2147483647 → add a b = some (a + b) :=
@@ -346,7 +346,7 @@ theorem post1StepC_eq (N : Num sc cl B G) (col : List Row) (i : Nat) (p : PSt) {
 theorem post2StepC_eq (N : Num sc cl B G) (hBG : B ≤ G) (s1 : List PSt) (i : Nat) (p : PSt) {U : Int} (hU : U ≤ G)
     (hp : PB U p) (hq : minScore ≤ (s1.getD i default).s ∧ (s1.getD i default).s ≤ U) :
     post2StepC sc cl x s1 i p = some (post2Step sc cl x s1 i p) ∧ PB U (post2Step sc cl x s1 i p) := by
-  obtain ⟨hB1, hgo, hge, hxp, hxs, hyp, hys, hG0, hroom, hthree⟩ := N
+  obtain ⟨hB1, hgo, hge, hxp, hxs, hyp, hys, hG0, hroom⟩ := N
   obtain ⟨hps, hpxm⟩ := hp
   have hms := minScore_i32
   have R : ∀ {a b : Int}, -2147483648 ≤ a + b → a + b ≤ 2147483647 → add a b = some (a + b) :=
